@@ -132,6 +132,27 @@ def empty_param_case(args):
         sc.close()
 
 
+def resumed_case(args):
+    """a partially completed workflow is resumed: the outputs of some later tasks of a process exist, an earlier one has to be
+    executed (and is slow); a downstream process pairs that stream with a parameter stream by position -- the input sets, and
+    hence the files, are those of a run from scratch"""
+    seed, i = args
+    rng = random.Random(seed * 100043 + i)
+    sp = t3.Spec(maxtasks=rng.randint(2, 4), bufsize=rng.choice([1, 2, 128]))
+    L = rng.randint(3, 6)
+    paths = ["r%d.txt" % j for j in range(L)]
+    for p in paths:
+        sp.files[p] = p + "\n"
+    s = sp.src("src", paths)
+    slow = 'sleep 0.$(( $(echo {i:a|basename} | tr -dc 0-9) == 0 ? 2 : 0 ))1'
+    cp = sp.proc(t3.Proc("cp", kind="cat", ins=[("a", [(s, "out")])], outs=[("o", "{i:a}.cp")], sleep=slow))
+    sp.proc(t3.Proc("pair", kind="cattok", ins=[("a", [(cp, "o")])], pars=[("q", ("V", ["k%d" % j for j in range(L)]))], outs=[("o", "{i:a}.{p:q}.pair")]))
+    for j in range(1, L):
+        if rng.random() < 0.7:
+            sp.files[paths[j] + ".cp"] = sp.files[paths[j]]          # what the first run had produced
+    return t3.success_case(sp, yield_seed=(rng.randint(1, 10**6), 300) if rng.random() < 0.3 else None, replays=("net", "tasks", "port"))
+
+
 def run(rep, tier, seed):
     proved = vlib.prove(rep, MODULE, THEOREMS)
     ok, msg = vlib.build_ocaml()
@@ -139,12 +160,13 @@ def run(rep, tier, seed):
         raise RuntimeError("extraction/driver build failed: " + msg[-1500:])
     n = 150 if tier == "quick" else 3000
     results = t3.run_many(case, [(seed, i) for i in range(n)])
+    results += t3.run_many(resumed_case, [(seed, i) for i in range(n // 12)])
     results += t3.run_many(empty_param_case, [(seed, i) for i in range(n // 12)])
     results += t3.run_many(ks.ks_case, [(seed, i, ("determinism",)) for i in range(n // 10)])
     t3.report_t3(rep, MODULE, proved, results, "T3 workflows vs WfModel")
     rep.cov["evaluations"] = len(results)
     rep.cov["distinct_nontrivial"] = len({r["spec"] for r in results if r["ntasks"] >= 2})
-    rep.cov["rule"] = "random acyclic workflows (1-2 file sources, optional parameter source / FromStr, 1-5 processes with 1-2 in-ports, 1-2 outputs, SetOut patterns or default names) and special shapes (port-less process, FromStr and chains longer than the buffer, diamonds with fan-out, single-port fan-in, independent multi-slot processes, a sub-stream joined by one task, parameter streams containing the empty string on a port used in the output name only), SCIPIPE_BUFSIZE in {1,2,3,128}, maxConcurrentTasks 1-4, CoresPerTask 1..max in 40% of the runs, GOMAXPROCS in {default,1,2}, seeded delays at the hook points in half of the runs; each run on the real library, compared with the Coq reference evaluator: exit status, exact file set and bytes, multiset of executed task keys; non-trivial = at least two executed tasks"
+    rep.cov["rule"] = "random acyclic workflows (1-2 file sources, optional parameter source / FromStr, 1-5 processes with 1-2 in-ports, 1-2 outputs, SetOut patterns or default names) and special shapes (port-less process, FromStr and chains longer than the buffer, diamonds with fan-out, single-port fan-in, independent multi-slot processes, a sub-stream joined by one task, parameter streams containing the empty string on a port used in the output name only, resumed workflows in which later tasks of a process are skipped while an earlier, slow one executes and a downstream process pairs the stream with parameters), SCIPIPE_BUFSIZE in {1,2,3,128}, maxConcurrentTasks 1-4, CoresPerTask 1..max in 40% of the runs, GOMAXPROCS in {default,1,2}, seeded delays at the hook points in half of the runs; each run on the real library, compared with the Coq reference evaluator: exit status, exact file set and bytes, multiset of executed task keys; non-trivial = at least two executed tasks"
     rep.cov["rule"] += "; plus kitchen-sink workflows (tools/ks.py: random workflows decorated with tagging components, sub-streams, Concatenator / FileSplitter, streamed pairs, component parameter feeders, Go-function and multi-core processes, RunTo) judged by the model-free determinism (two schedules) oracle"
     rep.cov["samples"] = [results[0]["spec"], results[1]["spec"]]
     rep.notes["input_distribution"] = {"runs": len(results), "tasks_executed_total": sum(r["ntasks"] for r in results),
